@@ -51,6 +51,7 @@ def a_exec_args(a, b):
 
 def make_dispatcher(kind, execs):
     coro = kind == 'async'
+    is_async = kind in ('async', 'async_plain')
 
     def body(beh, a, b):
         execs.append({'beh': beh, 'args': a_exec_args(a, b)})
@@ -64,7 +65,7 @@ def make_dispatcher(kind, execs):
             raise ValueError('boom')
         return {'a': a, 'b': b}
 
-    d = AsyncDispatcher() if coro else Dispatcher()
+    d = AsyncDispatcher() if is_async else Dispatcher()
     for beh in ('echo', 'typed', 'typednull', 'unreg', 'exc'):
         if coro:
             async def m(a=None, b=None, _beh=beh):
@@ -107,9 +108,7 @@ def run(scn, loop):
     def transport(text):
         doc, wf, ids_ok = abstract_wire(text)
         ev.append({'ev': 'Send', 'doc': doc, 'wf': wf, 'ids_ok': ids_ok})
-        if p['dk'] == 'async':
-            return disp.dispatch(text)          # a coroutine
-        return disp.dispatch(text)
+        return disp.dispatch(text)              # a coroutine for the asynchronous dispatcher
 
     def after(ret):
         ev.append({'ev': 'Serve', 'execs': [{'beh': e['beh'], 'args': 'none' if e['args'] == 'none' else e['args']} for e in execs]})
@@ -129,7 +128,10 @@ def run(scn, loop):
                 if asyncio.iscoroutine(r):
                     r = loop.run_until_complete(r)
                 return after(r)
-    idgen = {'sequential': generators.sequential, 'randint': ft.partial(generators.randint, 1, 2 ** 40),
+    def empty_string():
+        while True:
+            yield ''
+    idgen = {'sequential': generators.sequential, 'sequential0': ft.partial(generators.sequential, 0), 'empty_string': empty_string, 'randint': ft.partial(generators.randint, 1, 2 ** 40),
              'random': generators.random, 'uuid': generators.uuid}[p['idgen']]
     client = C(id_gen_impl=idgen, strict=p['strict'], error_cls=VerifBase)
     calls = p['calls']
